@@ -17,7 +17,7 @@ LEVEL_TEXT = ("Props/C02.v: certificate soundness for all phase lists, all compl
 LEVEL_NOTE = ("Trusted: Coq kernel + vm_compute, extraction, driver.ml, harness, numpy as executor. Axioms: stdlib real-number axioms + "
               "Classical_Prop.classic. 'Raises when P is not a corner / numerics fail' is observed on generated unachievable inputs and "
               "under fault injection, not proved.")
-RULE = ("complex P = corner of random phase sequences (both parities, degree 1..20; generic / moderate / symmetric / quarter-angle / "
+RULE = ("[plus: achievable corners with one off-parity coefficient of size 0.02..0.2 added - must raise] " "complex P = corner of random phase sequences (both parities, degree 1..20; generic / moderate / symmetric / quarter-angle / "
         "repeated phases), perturbed by 1e-6..1e-1, scaled by 0.5..2, tolerance in {1e-4,1e-6,1e-8,1e-9}; ~12% with the decomposition "
         "output perturbed by 1e3..1e5 tol; distinct by JSON; non-trivial = degree >= 2")
 TRUSTED = ["Coq 8.16.1 kernel incl. vm_compute", "extraction (ExtrOcamlBasic, ExtrOcamlZBigInt) + driver.ml + zarith, cross-checked in Coq on a slice",
@@ -52,6 +52,19 @@ def run(ctx):
                 if rng.random() < 0.12:
                     c["perturb"] = hexf(tol * 10 ** rng.choice([3, 4, 5]))
                 cases.append(c)
+        # not the corner of any QSP unitary because both parities are present: an achievable corner plus an off-parity term
+        for d in ([2, 3, 4, 7] if quick else range(1, 13)):
+            for rep in range(2 if quick else 6):
+                ph = (gen_phases(rng, d, rng.choice(["generic", "moderate"])) + [0.1] * (d + 1))[: d + 1]
+                pre, pim = Q.corner_of_phases(ph)
+                j = rng.choice([k for k in range(d + 1) if (k - d) % 2 == 1])
+                e = rng.choice([0.02, 0.05, 0.2]) * rng.choice([-1, 1])
+                if rng.random() < 0.5:
+                    pre[j] += e
+                else:
+                    pim[j] += e
+                cases.append({"fn": "qspp", "poly": Q.cplx_hex(pre, pim), "complex": True, "signal_operator": "Wx", "measurement": "z",
+                              "tolerance": hexf(1e-6), "kind": "offparity", "mode": "offparity", "offsize": abs(e), "timeout": 300})
     impl = run_impl(cases, timeout=3000)
     lines, keep = [], []
     for c, r in zip(cases, impl):
@@ -72,6 +85,11 @@ def run(ctx):
             continue
         pre = [x[1] for x in c["poly"]]
         pim = [x[2] for x in c["poly"]]
+        if c.get("mode") == "offparity":
+            # every <0|U(a)|0> has the parity of d; with f = P - corner, |f_off(a)| = |f(a) -+ f(-a)|/2 <= sup|f|, and f_off = P_off
+            ctx.fail("qspp", c, "returned %d phases for a P containing both parities (off-parity coefficient %.3g): no phase sequence has this corner; "
+                     "sup |<0|U|0> - P| >= |P_off(1)| = %.3g > 100*tol" % (ro["len"], c["offsize"], c["offsize"]))
+            continue
         lines.append("(c02 %s %s %s %s)" % (Q.qlist(ro["phis"]), Q.qlist(pre), Q.qlist(pim), qs(fr(c["tolerance"]))))
         keep.append((c, ro, pre, pim))
     mod = run_model(lines)
